@@ -87,10 +87,10 @@ func vC04DPlaceValues(n *vDNet, key string, now time.Time) (classes map[string]i
 			}
 		case "invalid":
 			if r.Intn(2) == 0 {
-				cl = []string{"badrank", "garbage", "otherkey-value", "miskeyed", "empty", "stale"}[r.Intn(6)]
+				cl = []string{"badrank", "garbage", "otherkey-value", "miskeyed", "miskeyed-good-value", "empty", "stale"}[r.Intn(7)]
 			}
 		default: // mixed
-			cl = []string{"missing", "missing", "valid", "valid", "valid-fresh", "stale", "expiring", "badrank", "garbage", "otherkey-value", "miskeyed", "empty"}[r.Intn(12)]
+			cl = []string{"missing", "missing", "valid", "valid", "valid-fresh", "stale", "expiring", "badrank", "garbage", "otherkey-value", "miskeyed", "miskeyed-good-value", "empty"}[r.Intn(13)]
 		}
 		rec := &recpb.Record{Key: []byte(key)}
 		switch cl {
@@ -117,6 +117,10 @@ func vC04DPlaceValues(n *vDNet, key string, now time.Time) (classes map[string]i
 			nonce++
 			rec.Key = []byte(key + "-other")
 			rec.Value = vDMakeValue(key+"-other", 390+r.Intn(10), time.Time{}, nonce)
+		case "miskeyed-good-value":
+			// filed under another key, but the value would pass the validator for the requested one
+			rec.Key = []byte(key + "-other")
+			rec.Value = newValid(time.Time{})
 		case "empty":
 		}
 		return cl, rec
@@ -260,7 +264,20 @@ func vC04DJudgeGet(c *vh.Case, n *vDNet, res *vDRes, sup []vC04DSupply) {
 			return
 		}
 		lanSource = wanValid == 0 // C15: the WAN result is returned whenever the WAN lookup succeeded
-		best := vC04DBestValid(sup, lanSource, false, res.End)
+		// the inner search whose result is returned ends at the return of the dual call, or earlier
+		// when its quorum was exceeded: at the (quorum+1)-th valid value it processed
+		end := res.End
+		if q := res.Op.Quorum; q > 0 {
+			k := 0
+			for _, s := range sup { // local supply first, answers in arrival order per network
+				if s.Valid && s.Lan == lanSource && s.Seq < res.EndSeq {
+					if k++; k == q+1 && s.VT.Before(end) {
+						end = s.VT
+					}
+				}
+			}
+		}
+		best := vC04DBestValid(sup, lanSource, false, end)
 		if best != nil {
 			c.Check(vDRank(res.Val) >= vDRank(best.Val), "final-is-best", "GetValue returned rank %d at +%v, but %s had supplied the valid value %q (rank %d) to the %s DHT at +%v, strictly before", vDRank(res.Val), res.End.Sub(res.Start), best.From, best.Val, vDRank(best.Val), map[bool]string{false: "WAN", true: "LAN"}[lanSource], best.VT.Sub(res.Start))
 		}
@@ -363,7 +380,7 @@ func vC04DPlaceKeys(n *vDNet, who, other vC04DIdentity) string {
 
 func TestVerif_C04_dual(t *testing.T) {
 	vh.Run(t, vh.Spec{Prop: "C04", Unit: "dual", Quick: 400, Thorough: 20000, CostMs: 20,
-		Rule: "dual client over two simulated networks (C15 generator); one key per case whose records are assigned per responder of BOTH networks and per local store from {valid (shared pool or fresh, unique ranks), stale, expiring during the search, negative rank, garbage, value made for another key, record filed under another key, empty, missing} under a per-network mode (none / valid / invalid / mixed); quorum in {none,0,1,2,K}; latencies 5/50/400 ms per network deciding the merge order; 1 case in 10 is an offline node (both tables empty) with a different valid record in each local store; SearchValue (1/2), GetValue (1/3) or GetPublicKey (1/6: ECDSA P-256 owner reachable or not, holders serving the right key, another peer's key, garbage or a mis-keyed record); rank + expiry reference validator evaluated in virtual time; non-trivial = at least 2 valid and 1 invalid supplies reached the client (values) / at least one answer carried a key record (keys); distinct by (operation, quorum, supply sequence)",
+		Rule: "dual client over two simulated networks (C15 generator); one key per case whose records are assigned per responder of BOTH networks and per local store from {valid (shared pool or fresh, unique ranks), stale, expiring during the search, negative rank, garbage, value made for another key, record filed under another key (with a value for that key, or with a value that would validate for the requested key), empty, missing} under a per-network mode (none / valid / invalid / mixed); quorum in {none,0,1,2,K}; latencies 5/50/400 ms per network deciding the merge order; 1 case in 10 is an offline node (both tables empty) with a different valid record in each local store; SearchValue (1/2), GetValue (1/3) or GetPublicKey (1/6: ECDSA P-256 owner reachable or not, holders serving the right key, another peer's key, garbage or a mis-keyed record); rank + expiry reference validator evaluated in virtual time; non-trivial = at least 2 valid and 1 invalid supplies reached the client (values) / at least one answer carried a key record (keys); distinct by (operation, quorum, supply sequence)",
 		Clauses: []string{"yielded-valid-at-emission", "yielded-was-supplied", "strictly-improving", "final-is-best", "nothing-valid-not-found", "pubkey-matches-peer-id"}},
 		func(c *vh.Case) {
 			cfg := vC15GenCfg(c, false)
